@@ -109,7 +109,7 @@ def ops(tier):
 # ---- known findings: narrow predicates over (exception type, innermost pyxform frame) -----------------------------------------
 FINDINGS = {
     "F4c-external-select-unfiltered": ("KeyError", "add_choices_info_to_question"),
-    "F42-settings-slot-with-plain-text": ("AttributeError", "__no_such_site__"),     # matched by the structural predicate in classify()
+    "F57-column-called-fields-or-action": ("AttributeError", "__no_such_site__"),     # matched by the structural predicate in classify()
     "F46-osm-tag-cycle": ("RecursionError", "has_external_choices"),
     "F47-grouped-extra-choice-column": ("AttributeError", "__no_such_site__"),     # structural predicate in classify()
 }
@@ -117,7 +117,7 @@ FINDING_INPUTS = {
     "F4c-external-select-unfiltered": {"survey": [{"type": "select_one_external cities", "name": "c", "label": "C"}],
                                        "choices": [{"list_name": "l", "name": "a", "label": "A"}],
                                        "external_choices": [{"list_name": "cities", "name": "a", "label": "A"}]},
-    "F42-settings-slot-with-plain-text": {"survey": [{"type": "text", "name": "q", "label": "Q"}], "settings": [{"bind": "text"}]},
+    "F57-column-called-fields-or-action": {"survey": [{"type": "text", "name": "q", "label": "Q", "fields": "abc"}]},
     "F46-osm-tag-cycle": {"survey": [{"type": "osm zz", "name": "q1", "label": "L"}], "osm": [{"list_name": "zz", "name": "zz", "label": "l"}]},
     "F47-grouped-extra-choice-column": {"survey": [{"type": "select_one l", "name": "q", "label": "Q"}], "choices": [{"list_name": "l", "name": "x", "label": "X", "region::code": "v"}]},
 }
@@ -141,16 +141,17 @@ def classify(crash, form=None):
     for slug, (tname, fn) in FINDINGS.items():
         if crash[0] == tname and crash[1] == fn:
             return slug
-    # an extra choices column whose header holds a colon is grouped into a nested dict (like label::en) and handed to node() as an element's text
-    KNOWN_CH = {"label", "hint", "image", "audio", "video", "big-image", "media", "constraint_message", "required_message", "guidance_hint", "name", "value", "list_name", "list name"}
+    # a column that takes no language or sub-key, given with a `::suffix` (an extra choices column region::code, a survey column relevant::en):
+    # the cell is grouped into a nested dict like a translated column and handed to node() as an element's text
+    GROUPABLE = {"label", "hint", "image", "audio", "video", "big-image", "media", "constraint_message", "required_message", "guidance_hint", "name", "value", "list_name", "list name",
+                 "bind", "body", "control", "instance", "noapperrorstring", "no_app_error_string", "jr", "caption"}
     if form and crash[0] == "AttributeError" and crash[1] == "node" and "'dict' object has no attribute 'nodeType'" in crash[2] and any(
-            ":" in str(k) and "_".join(str(k).split(":")[0].split()).lower() not in KNOWN_CH for row in form.get("choices", []) for k in row):
+            ":" in str(k) and "_".join(str(k).split(":")[0].split()).lower() not in GROUPABLE for sh in ("choices", "survey") for row in form.get(sh, []) for k in row):
         return "F47-grouped-extra-choice-column"
-    # a settings column named after a Survey slot that holds a structure (bind, control, _translations ...) with a plain text value:
-    # the text is handed to Survey(**kwargs) and used as the dict it is not
-    SLOTS = {"bind", "control", "_translations", "_xpath", "instance", "media", "parameters", "choices", "extra_data"}
-    if form and any("_".join(str(k).split()).lower() in SLOTS for row in form.get("settings", []) for k in row) and crash[0] in ("AttributeError", "TypeError"):
-        return "F42-settings-slot-with-plain-text"
+    # a survey or choices column called `fields` (a constructor argument of every survey element) or `action` (a slot that holds a structure)
+    if form and ((crash[0] == "AttributeError" and crash[1] == "__setattr__") or (crash[0] in ("TypeError", "ValueError") and crash[1] in ("xml_action", "__init__"))) and any(
+            "_".join(str(k).split()).lower() in ("fields", "action") for sh in ("choices", "survey") for row in form.get(sh, []) for k in row):
+        return "F57-column-called-fields-or-action"
     return None
 
 
@@ -376,7 +377,30 @@ def M_file_instance_clash(rng, form):
     return {"kind": r"The same instance id will be generated for different external instance source URIs", "row": None, "subject": stem}
 
 
-MUTATIONS = [M_file_instance_clash, M_ambiguous_reference, M_or_other_without_choices, M_unmatched_end, M_mismatched_end, M_unclosed_begin, M_duplicate_sibling, M_invalid_name, M_unknown_reference, M_malformed_reference,
+def M_geopoint_trigger_not_a_question(rng, form):
+    """a background-geopoint whose trigger names a group / repeat (not a question), or nothing that exists"""
+    kind = rng.choice(["group", "repeat", "lgroup"])
+    where = rng.choice(["before", "after", "inside"])
+    begin = {"group": "begin group", "repeat": "begin repeat", "lgroup": "begin lgroup"}[kind]
+    end = {"group": "end group", "repeat": "end repeat", "lgroup": "end lgroup"}[kind]
+    bg = {"type": "background-geopoint", "name": "bg_point", "trigger": "${trg_section}"}
+    sect = [{"type": begin, "name": "trg_section", "label": "G"}, {"type": "text", "name": "trg_inner", "label": "T"}, {"type": end}]
+    if where == "inside" and kind == "group":
+        sect.insert(2, bg)
+        rows_of(form).extend(sect)
+        row = len(rows_of(form)) - 1 + 2 - 1
+    elif where == "before":
+        rows_of(form).append(bg)
+        row = len(rows_of(form)) - 1 + 2
+        rows_of(form).extend(sect)
+    else:
+        rows_of(form).extend(sect)
+        rows_of(form).append(bg)
+        row = len(rows_of(form)) - 1 + 2
+    return {"kind": r"For 'background-geopoint' questions, the 'trigger' column must be a reference to another question that exists", "row": row}
+
+
+MUTATIONS = [M_geopoint_trigger_not_a_question, M_file_instance_clash, M_ambiguous_reference, M_or_other_without_choices, M_unmatched_end, M_mismatched_end, M_unclosed_begin, M_duplicate_sibling, M_invalid_name, M_unknown_reference, M_malformed_reference,
              M_unknown_type, M_missing_list, M_calculate_without_calculation, M_bad_parameters, M_unknown_parameter, M_instance_clash,
              M_duplicate_choice, M_missing_name, M_missing_label, M_duplicate_header, M_spaces_in_multi_choice]
 
@@ -451,14 +475,17 @@ def fuzz_form(rng):
              "indexed-repeat(${q}, ${r}, 1)", "position(..)", "instance('l')/root/item", "${q1}${q}", "$ {q}", "\u0001", "a < b & c", "yes", "no", "search('f')",
              "field-list", "table-list", "label", "list-nolabel", "minimal"]
     cols = ["label", "hint", "relevant", "constraint", "required", "calculation", "default", "choice_filter", "parameters", "appearance", "repeat_count", "trigger",
-            "read_only", "constraint_message", "label::en", "hint::fr", "media::image", "image", "bind::x", "body::y", "instance::z", "save_to", "guidance_hint", "jr", "x:jr"]
+            "read_only", "constraint_message", "label::en", "hint::fr", "media::image", "image", "bind::x", "body::y", "instance::z", "save_to", "guidance_hint", "jr", "x:jr",
+            # column names that mean something inside pyxform
+            "bind", "control", "instance", "media", "fields", "action", "bind::nodeset", "body::ref", "bind::tag", "choices", "children", "parent", "extra_data", "query", "itemset",
+            "relevant::en", "label::parent", "hint::bind", "noAppErrorString", "bind::jr:noAppErrorString", "body::bodyless"]
     survey = []
     for _ in range(rng.randint(1, 8)):
         row = {"type": rng.choice(types)}
         if rng.random() < 0.9:
             row["name"] = rng.choice(names)
         if rng.random() < 0.7:
-            row["label"] = rng.choice(["L", "${q}", "${nope}", "a ${q} b"])
+            row["label"] = rng.choice(["L", "${q}", "${nope}", "a ${q} b", "100% done", "%d items", "%(name)s and %(label)s", "%(nope)s", "50%"])
         for c in rng.sample(cols, rng.randint(0, 3)):
             row[c] = rng.choice(params) if c == "parameters" else rng.choice(exprs)
         survey.append(row)
@@ -495,8 +522,8 @@ FZ_SETTINGS = {"form_title": ["T", "${q}", "<b>"], "form_id": ["f", "a b", "1a"]
                "namespaces": ['a="http://x"', "a=b", "a", '="x"', 'a="http://x" a="http://y"', 'a:b="x"', '1a="http://x"', 'xmlns="http://x"'],
                "style": ["pages", "theme-grid x"], "instance_name": ["concat('a',${q})", "${nope}", "'x'"], "instance_id": ["uid", "x y"], "instance_xmlns": ["http://x", "a b"],
                "omit_instanceID": ["yes", "no", "x"], "allow_choice_duplicates": ["yes", "bob"], "name": ["data", "1a", "a b", "meta", "a:b:c", "a:", ":a", "a::b", "-x", "2x"], "sms_keyword": ["k"], "attribute::x": ["v"],
-               "attribute::a b": ["v"], "attribute::a:b": ["v"], "clean_text_values": ["no", "yes"], "flat": ["yes"], "id_string": ["x"], "title": ["t"]}
-FZ_CHOICE_COLS = ["label", "label::en", "label::fr", "image", "media::image", "media::image::en", "audio", "video", "big-image", "media::big-image::fr", "cf", "x y", "1a", "name", "value",
+               "attribute::a b": ["v"], "attribute::a:b": ["v"], "form_title::en": ["T"], "attribute": ["v"], "instance::foo": ["bar"], "entity_features": ["x"], "version::x": ["1"], "clean_text_values": ["no", "yes"], "flat": ["yes"], "id_string": ["x"], "title": ["t"]}
+FZ_CHOICE_COLS = ["media", "fields", "bind", "control", "type", "parent", "hint", "default", "label", "label::en", "label::fr", "image", "media::image", "media::image::en", "audio", "video", "big-image", "media::big-image::fr", "cf", "x y", "1a", "name", "value",
                   "list name", "list_name", "sms_option", "geometry", "label::", "::en", "media::", "jr", "a:b"]
 FZ_ENT_COLS = ["dataset", "list_name", "label", "entity_id", "create_if", "update_if", "repeat", "x", "dataset ", "Dataset", "name", "type", "parameters"]
 
